@@ -127,6 +127,46 @@ class Gen:
                         ops.append("SS:%d:%d:%s:N:-" % (c, sl, hx(k[len(d) + 1:])))
             ops.append("IN:%d:%d" % (c, isl))
 
+    def hookfail(self):
+        """A set whose post-set hook FAILS (a VMCOREINFO blob whose first row the parser rejects) as
+        the first value below its directories, on a new context: the value must be in place and
+        the directories above it must have a value — read by path, by reference (taken before and
+        after), by iteration of every ancestor and of the root, through the context and clones."""
+        r = self.rng
+        ops = ["F"] if self.variant == "F" else []
+        key = r.choice(["linux.vmcoreinfo.raw", "xen.vmcoreinfo.raw"])
+        comps = key.split(".")
+        anc = [".".join(comps[:j]) for j in range(1, len(comps))]
+        for _ in range(r.choice([0, 0, 1, 3])):
+            k = r.choice([n for n in self.settable if not n.startswith(comps[0] + ".")])
+            ty = self.by_name[k][0]
+            ops.append("S:0:%s:%s:%s" % (hx(k), ty, self.value(ty)))
+        ctxs = [0]
+        if r.random() < 0.4:
+            ops.append("C:0:%d" % r.choice([0, 0, 1]))
+            ctxs.append(1)
+        via = r.choice(ctxs)
+        refs = r.random() < 0.5
+        if refs:
+            ops.append("R:%d:0:%s" % (via, hx(key)))
+            ops.append("R:%d:1:%s" % (via, hx(r.choice(anc))))
+        ops.append("SF:%d:%s:b:%x:4" % (via, hx(key), 60 + r.randrange(3)))
+        for c in ctxs:
+            ops.append("G:%d:%s" % (c, hx(key)))
+            for sl, a in enumerate(anc):
+                ops.append("G:%d:%s" % (c, hx(a)))
+                ops.append("R:%d:%d:%s" % (c, 2 + sl, hx(a)))
+                ops.append("RI:%d" % (2 + sl))
+                ops.append("RG:%d:%d" % (c, 2 + sl))
+                ops.append("I:%d:%d:%s" % (c, sl % 3, hx(a)))
+                ops += ["IN:%d:%d" % (c, sl % 3)] * (self.by_name[a][1] + 1)
+            if refs:
+                ops.append("RG:%d:0" % c)
+                ops.append("RI:1")
+        ops.append("I:0:2:@")
+        ops += ["IN:0:2"] * 10
+        return ops
+
     def clone_open(self):
         """The application sets translation options, clones the context (mostly with
         KDUMP_CLONE_XLAT), opens a dump THROUGH THE CLONE, and every option is read by path and by
@@ -667,6 +707,14 @@ def check(run):
     if usable:
         for j in range(ncases // 8):
             cases.append((gen if j % 2 else genf).clone_open())
+    # the same file (and another one) opened twice in a row: what the first file left must not
+    # show in the second listing (CPU numbering, cpu.number)
+    for i in usable:
+        for j in usable:
+            cases.append(["F", "O:%d" % i, "O:%d" % j, "G:0:%s" % hx("cpu.number"), "G:0:%s" % hx("addrxlat.default.phys_base")])
+    # sets whose post-set hook fails, on new contexts
+    for _ in range(60 if quick else 1500):
+        cases.append(genf.hookfail())
     run.cov["rule"] = ("one case = one operation history on a freshly prepared real context (%d keys); distinct = distinct "
                        "histories; non-trivial = contains a clear, a type mismatch, a clone or a re-open" % len(tree))
     run.cov["engines"]["attr"] = {"corpus_cases": ncorpus, "generated": ncases, "fresh_context_histories": nfresh,
